@@ -58,10 +58,10 @@ theorem newItem_ok (units sfn : List Nat) (h1 : 1 ≤ units.length) (h255 : unit
   exact ⟨Or.inr g1, g3, hsfn⟩
 
 theorem newItem_name (units sfn : List Nat) (h1 : 1 ≤ units.length) (h255 : units.length ≤ 255)
-    (hu : ∀ x ∈ units, x < 65536) (hne : units ≠ []) (hlast : isPad (units.getLast hne) = false) :
+    (hu : ∀ x ∈ units, x < 65536) (hnz : ∀ x ∈ units, x ≠ 0) :
     nameOf (lfnGenerate units (lfnChecksum (sfnName sfn))) = units := by
   obtain ⟨_, g2, _, _⟩ := generate_complete units (lfnChecksum (sfnName sfn)) h1 (by omega) hu
-  rw [nameOf, g2, stripTrailing_append_pads _ _ (padTail_isPad _), stripTrailing_of_last_good _ hne hlast, capName,
+  rw [nameOf, g2, cutAtNul_padded _ hnz, capName,
     if_neg (by omega)]
 
 /-- **`write_entry` on a well-formed directory, in terms of items**: either `num` deleted items are replaced by the new
